@@ -22,6 +22,9 @@ type Result struct {
 	Raw      string
 	Script   string
 	SmallScope bool
+	Candidate  map[string]string // model of the quantifier-free relaxation: to be confirmed by replay only
+	CandSolver string
+	CandRaw    string
 }
 
 func (g *Gen) script(o *Obligation, extra []string, getValues []string) string {
@@ -168,6 +171,11 @@ func dropQuantified(script string) string {
 	var b strings.Builder
 	for _, ln := range strings.Split(script, "\n") {
 		if strings.HasPrefix(ln, "(assert ") && (strings.Contains(ln, "(forall ") || strings.Contains(ln, "(exists ")) {
+			// a dropped "copy" definition is replaced by "nothing changed", which keeps the
+			// rest of memory (in particular the input bytes) consistent in candidate models
+			if m := copyDefRe.FindStringSubmatch(ln); m != nil {
+				b.WriteString("(assert (= " + m[1] + " " + m[2] + "))\n")
+			}
 			continue
 		}
 		b.WriteString(ln)
@@ -391,9 +399,9 @@ func solveAll(g *Gen, dir string, timeoutS int, par int, tagPrefix string) []*Re
 					results[i] = &Result{Obl: g.obls[i], Status: "cover-skipped", Solver: "-"}
 					continue
 				}
-				ct := timeoutS / 4
-				if ct < 5 {
-					ct = 5
+				ct := timeoutS / 2
+				if ct < 15 {
+					ct = 15
 				}
 				results[i] = solveOne(g, g.obls[i], dir, fmt.Sprintf("%s_%d", tagPrefix, i), ct)
 				if results[i].Status == "cover-ok" {
@@ -540,6 +548,18 @@ func solveOne(g *Gen, o *Obligation, dir, tag string, timeoutS int) *Result {
 				r.Status, r.Solver, r.Raw, r.SmallScope = "refuted", sv, so, true
 				r.Model = parseModel(so, getv)
 				break
+			}
+		}
+		// last resort: a model of the query with its quantified facts dropped is only a
+		// CANDIDATE input; it counts for nothing unless the replay on the real code fails
+		if r.Status == "noanswer" && len(getv) > 0 {
+			for _, bound := range []int{16, 48} {
+				ss, sv, so, sms := runSolvers(dropQuantified(g.script(o, smallScope(g, o, bound), getv)), dir, fmt.Sprintf("%s_cand%d", tag, bound), 8, []string{"z3-new"})
+				r.Ms += sms
+				if ss == "sat" {
+					r.Candidate, r.CandSolver, r.CandRaw = parseModel(so, getv), sv, so
+					break
+				}
 			}
 		}
 	}
